@@ -231,7 +231,11 @@ class Deck:
         found = []
         lat = [c for c in self.cells.values() if c.universe == universe and c.lat]
         if lat:
-            return self.locate_lattice(lat[0], pt, depth)
+            q = pt
+            if lat[0].trcl is not None:
+                # TRCL on a lattice cell moves the whole lattice (every element) together with what fills it
+                q = self.to_aux(lat[0].trcl, pt)
+            return self.locate_lattice(lat[0], q, depth)
         for c in self.cells.values():
             if c.universe != universe:
                 continue
@@ -681,6 +685,9 @@ def lattice_deck(seed):
         L.homogeneous = u
     if L.homogeneous and rng.random() < 0.6:
         L.filltr = rng.choice([INLINE_TRS[1], INLINE_TRS[4], INLINE_TRS[2], ('inline', False, [0.1, 0.0, 0.0])])
+    elif rng.random() < 0.3:
+        # the lattice cell itself carries a TRCL (translation, or a rotation that is not symmetric)
+        L.trcl = rng.choice([INLINE_TRS[0], INLINE_TRS[1], INLINE_TRS[4], INLINE_TRS[2]])
     d.add_cell(L)
     if rng.random() < 0.4:
         # a second lattice bounded by the same planes in another listing (other index directions / senses)
